@@ -130,6 +130,12 @@ func (self *Core) runInstruction(instruction compiler.Instruction) *value.VmInte
 		return nil
 	case compiler.Opcode_Return:
 		self.popCallStack()
+		// A `return` from inside a `try` block skips its `PopTryLabel`:
+		// forget the catch labels of the frame which has just been left.
+		for len(self.catchStates) > 0 && self.catchStates[len(self.catchStates)-1].callStackLen > len(self.CallStack) {
+			self.ExceptionCatchLabels = self.ExceptionCatchLabels[:len(self.ExceptionCatchLabels)-1]
+			self.catchStates = self.catchStates[:len(self.catchStates)-1]
+		}
 		// Need to return, otherwise, the callstack would have been popped, instantly skipping the next instruction
 		return nil
 	case compiler.Opcode_Load_Singleton:
@@ -601,8 +607,14 @@ func (self *Core) runInstruction(instruction compiler.Instruction) *value.VmInte
 			Function:           i.ValueString,
 			InstructionPointer: uint(i.ValueInt),
 		})
+		self.catchStates = append(self.catchStates, catchState{
+			callStackLen:  len(self.CallStack),
+			stackLen:      len(self.Stack),
+			memoryPointer: self.MemoryPointer,
+		})
 	case compiler.Opcode_PopTryLabel:
 		self.ExceptionCatchLabels = self.ExceptionCatchLabels[:len(self.ExceptionCatchLabels)-1]
+		self.catchStates = self.catchStates[:len(self.catchStates)-1]
 	case compiler.Opcode_Member:
 		i := instruction.(compiler.OneStringInstruction)
 
